@@ -41,13 +41,22 @@ def observe (s : State) (tracked : List Nat) : String :=
         let lay := match e.owner with
           | some k => if (spaceOf s k).isSome then toString k else "?"
           | none => "-"
-        toString h ++ ":" ++ ow ++ ":" ++ (if e.indb then "1" else "0") ++ ":" ++ lay ++ ":" ++ (if e.psp then "1" else "0")
+        let ib := if e.indb then "1" else "0"
+        let ps := if e.psp then "1" else "0"
+        -- sub-entities are owned by the parent (`take_ownership`) and follow its database membership and paperspace flag
+        let subs := "/".intercalate (e.subs.map fun x => toString x ++ "," ++ toString h ++ "," ++ ib ++ "," ++ ps)
+        toString h ++ ":" ++ ow ++ ":" ++ ib ++ ":" ++ lay ++ ":" ++ ps ++ ":" ++ subs
   let bs := (sortBy (fun a b => ltStr a.1 b.1) s.blocks).map fun b => sStr b.1 ++ ":" ++ toString b.2.2
   let ls := (sortBy (fun (a b : Lay) => a.tab < b.tab || (a.tab == b.tab && ltStr a.name b.name)) s.layouts).map
     fun l => sStr l.name ++ ":" ++ toString l.br
-  let act := match activeBr s with | some k => toString k | none => "?"
+  let act := match activeBr s with | some k => toString k | none => "EXCDXFTableEntryError"   -- get_active_layout_key raises
   let ly := (sortBy ltStr s.layers).map sStr
-  ";".intercalate [" ".intercalate cs, " ".intercalate es, " ".intercalate bs, " ".intercalate ls, act, " ".intercalate ly]
+  let tb := (sortBy (fun (a b : Nat × Str) => a.1 < b.1 || (a.1 == b.1 && ltStr a.2 b.2)) s.tabs).map
+    fun t => toString t.1 ++ ":" ++ sStr t.2
+  let gs := (sortBy (fun (a b : Str × Nat × List Nat) => ltStr a.1 b.1) s.groups).map
+    fun g => sStr g.1 ++ ":" ++ toString g.2.1 ++ ":" ++ ",".intercalate ((g.2.2.filter (isAlive s)).map toString)
+  ";".intercalate [" ".intercalate cs, " ".intercalate es, " ".intercalate bs, " ".intercalate ls, act, " ".intercalate ly,
+    " ".intercalate tb, " ".intercalate gs]
 
 def parseOp (f : List String) : Option Op :=
   match f with
@@ -58,7 +67,23 @@ def parseOp (f : List String) : Option Op :=
   | ["move", k1, e, k2, _] => do some (.move (← k1.toNat?) (← e.toNat?) (← k2.toNat?))
   | ["del", k, e, _] => do some (.del (← k.toNat?) (← e.toNat?))
   | ["destroy", e, _] => do some (.destroy (← e.toNat?))
-  | ["copy", e, k, h, sd] => do some (.copy (← e.toNat?) (← k.toNat?) (← h.toNat?) (← sd.toNat?))
+  | ["copy", e, k, h, sb, sd] => do some (.copy (← e.toNat?) (← k.toNat?) (← h.toNat?) (← pStr sb) (← sd.toNat?))
+  | ["addl", k, r, h, sb, sd] => do
+      let ref ← (if r == "-" then some none else (pStr r).map some)
+      some (.addL (← k.toNat?) ref (← h.toNat?) (← pStr sb) (← sd.toNat?))
+  | ["explode", e, ns, sd] => do
+      let news ← (if ns.isEmpty then some [] else (ns.splitOn " ").mapM fun n =>
+        match n.splitOn "/" with
+        | [h, sb] => do some ((← h.toNat?), (← pStr sb))
+        | _ => none)
+      some (.explode (← e.toNat?) news (← sd.toNat?))
+  | ["auditstep", sd] => do some (.audit (← sd.toNat?))
+  | ["addentry", t, n, sd] => do some (.addEntry (← t.toNat?) (← pStr n) (← sd.toNat?))
+  | ["delentry", t, n, _] => do some (.delEntry (← t.toNat?) (← pStr n))
+  | ["dupentry", t, a, b, sd] => do some (.dupEntry (← t.toNat?) (← pStr a) (← pStr b) (← sd.toNat?))
+  | ["newgroup", n, h, sd] => do some (.newGroup (← pStr n) (← h.toNat?) (← sd.toNat?))
+  | ["setgroup", n, ms, _] => do some (.setGroup (← pStr n) (← pStr ms))
+  | ["delgroup", n, _] => do some (.delGroup (← pStr n))
   | ["purge", _] => some .purge
   | ["newblock", n, br, sd] => do some (.newBlock (← pStr n) (← br.toNat?) (← sd.toNat?))
   | ["delblock", n, sf, _] => do some (.delBlock (← pStr n) (sf == "1"))
@@ -73,13 +98,17 @@ def parseOp (f : List String) : Option Op :=
   | ["foreign", k, e, _] => do some (.foreign (← k.toNat?) (← e.toNat?))
   | _ => none
 
-def created : Op → List Nat
-  | .add _ h _ => [h] | .ins _ _ h _ => [h] | .copy _ _ h _ => [h] | _ => []
+def created (s : State) : Op → List Nat
+  | .add _ h _ => [h] | .ins _ _ h _ => [h] | .copy _ _ h _ _ => [h] | .addL _ _ h _ _ => [h]
+  | .explode e news _ =>
+    -- copies of the block content, then the TEXT entities that take the handles of the attached ATTRIBs
+    news.map (·.1) ++ (match findEnt s e with | some x => x.subs.take (x.subs.length - 1) | none => [])
+  | _ => []
 
 /-- init|seed|k k k|key:name:br …|name:br:tab …|layer … -/
 def parseInit (f : List String) : Option State :=
   match f with
-  | ["init", sd, ks, bs, ls, ly] => do
+  | ["init", sd, ks, bs, ls, ly, tb] => do
     let seed ← sd.toNat?
     let spaces ← (if ks.isEmpty then some [] else (ks.splitOn " ").mapM (·.toNat?))
     let blocks ← (if bs.isEmpty then some [] else (bs.splitOn " ").mapM fun b =>
@@ -91,7 +120,12 @@ def parseInit (f : List String) : Option State :=
       | [n, br, tab] => do let nm ← pStr n; some (⟨upper nm, nm, ← br.toNat?, ← tab.toNat?⟩ : Lay)
       | _ => none)
     let layers ← (if ly.isEmpty then some [] else (ly.splitOn " ").mapM pStr)
-    some ⟨[], spaces.map (fun k => (k, [])), blocks, layouts, layers, seed⟩
+    let tabs ← (if tb.isEmpty then some [] else (tb.splitOn " ").mapM fun t =>
+      match t.splitOn ":" with
+      | [i, n] => do some ((← i.toNat?), (← pStr n))
+      | _ => none)
+    some { ents := [], spaces := spaces.map (fun k => (k, [])), blocks := blocks, layouts := layouts, layers := layers,
+           next := seed, tabs := tabs }
   | _ => none
 
 partial def loop (i o : IO.FS.Stream) (s : State) (tracked : List Nat) : IO Unit := do
@@ -122,14 +156,17 @@ partial def loop (i o : IO.FS.Stream) (s : State) (tracked : List Nat) : IO Unit
   | ["dump"] =>
     let w := writeFile s
     o.putStrLn (" ".intercalate (w.blocks.map fun b => toString b.1 ++ ":" ++ ",".intercalate (b.2.map toString))
-      ++ ";" ++ ",".intercalate (w.entities.map toString) ++ ";" ++ toString w.handseed)
+      ++ ";" ++ ",".intercalate (w.entities.map toString)
+      ++ ";" ++ " ".intercalate ((sortBy (fun (a b : Nat × List Nat) => a.1 < b.1) w.groups).map fun g =>
+          toString g.1 ++ ":" ++ ",".intercalate (g.2.map toString))
+      ++ ";" ++ toString w.handseed)
     loop i o s tracked
   | _ =>
     match parseOp f with
     | none => o.putStrLn "bad-op"; loop i o s tracked
     | some op =>
       let (s', out) := step s op
-      let tr := match out with | .ok => tracked ++ created op | _ => tracked
+      let tr := match out with | .ok => tracked ++ created s op | _ => tracked
       let os := match out with | .ok => "ok" | .err e => "err:" ++ showErr e
       o.putStrLn (os ++ ";" ++ observe s' tr)
       loop i o s' tr
@@ -137,5 +174,5 @@ partial def loop (i o : IO.FS.Stream) (s : State) (tracked : List Nat) : IO Unit
 def main : IO Unit := do
   let i ← IO.getStdin
   let o ← IO.getStdout
-  loop i o ⟨[], [], [], [], [], 1⟩ []
+  loop i o { ents := [], spaces := [], blocks := [], layouts := [], layers := [], next := 1 } []
   o.flush
